@@ -85,6 +85,19 @@ BackwardWithInsert ==
               LET r == CalcReshapeArgs(target, Ins1(shape, p), subs) IN
               r.ok => /\ PlanWellFormed(target, subs, Plan(r))
                       /\ ShapeOfAxes(ApplyPlan(target, subs, Plan(r))) = Ins1(shape, p)
+\* NEGATIVE CONTROL: the routine as it was before the repair of F17 (CalcOriginal) must FAIL the sparse identity / unit
+\* insertion requests - checks/c07.py expects TLC to report this invariant
+PlanGivesOrig(sh, subs, tgt) ==
+  LET r == CalcOriginal(sh, tgt, subs) IN
+  r.ok /\ PlanWellFormed(sh, subs, Plan(r)) /\ ShapeOfAxes(ApplyPlan(sh, subs, Plan(r))) = tgt
+ControlOriginalSparse ==
+  (Forward.ok /\ PlanWellFormed(shape, None(shape), Plan(Forward)) /\ target # <<>>)
+     => \A how \in {1, 2} :
+          LET ax == Shrunk(ApplyPlan(shape, None(shape), Plan(Forward)), how)
+              sh == ShapeOfAxes(ax)
+              subs == [i \in 1..Len(ax) |-> ax[i].sub]
+          IN /\ PlanGivesOrig(sh, subs, sh)
+             /\ \A p \in 0..Len(sh) : PlanGivesOrig(sh, subs, Ins1(sh, p))
 \* the documented known finding is still there (if this fails the routine was repaired: update the findings)
 KnownF09 == AllUnitsToScalar => ~Forward.ok
 =============================================================================
